@@ -77,11 +77,11 @@ pub fn line(s: &str) {
 
 fn explore(args: &Args) {
     let prop = args.prop.as_str();
-    let plan = props::explorer_plan(prop).unwrap_or_else(|| panic!("no explorer plan for {prop}"));
+    let thorough = args.get("tier") == Some("thorough");
+    let plan = props::explorer_plan(prop, thorough).unwrap_or_else(|| panic!("no explorer plan for {prop}"));
     let seed = args.get_u64("seed", 0);
     let shard = args.get_u64("shard", 0);
     let nshards = args.get_u64("nshards", 1);
-    let thorough = args.get("tier") == Some("thorough");
     let cases = args.get_u64("cases", if thorough { plan.cases.1 } else { plan.cases.0 });
     let replay = args.kv.get("replay").map(|s| parse_u64(s));
     engine::install_quiet_panic_hook();
